@@ -16,7 +16,7 @@ For every path the extracted behaviour is compared with the documented behaviour
 """
 import itertools
 
-from sa.absint import Interp, Obj, Residual
+from sa.absint import Raised, Interp, Obj, Residual
 from sa.index import AnalysisError
 
 BLANK = "self.csvpath.line_monitor.is_last_line_and_blank(self.line)"
@@ -155,16 +155,24 @@ def do_lasts_rows(idx, n=3):
         e = args[0] if args else None
         name = e.name if isinstance(e, Obj) else str(e)
         interp.path.__dict__.setdefault("activated", []).append(name)
-        eff = interp.choose(f"{name}.effect", ["none", "stop", "skip"], memo=False)
+        eff = interp.choose(f"{name}.effect", ["none", "stop", "skip", "raise"], memo=False)
         if eff == "stop":
             interp.store["self.csvpath.stopped"] = True
         elif eff == "skip":
             interp.store["self.skip"] = True
         interp.path.__dict__.setdefault("fired", []).append(eff)
+        if eff == "raise":
+            # the last()'s consequence faults outside Function.matches' own handler (e.g. the right side of `last() -> @x = int(@y)`)
+            raise Raised("ValueError")
+
+    def handled(interp, call, recv, args, kwargs):
+        # (an error policy without 'raise': the error is recorded and the line goes on)
+        interp.path.__dict__.setdefault("handled", []).append(recv.name if isinstance(recv, Obj) else str(recv))
+        return None
 
     it = Interp(idx, types={"self": "Matcher"}, inline_all={"Matcher"},
                 domains={"self.csvpath": [Obj("self.csvpath")]},
-                handlers={"self._find_and_actvate_lasts": activate})
+                handlers={"self._find_and_actvate_lasts": activate, ".handle_error": handled, "traceback.format_exc": lambda i, c, r, a, k: "TRACE"})
     store = {"self.expressions": [[Obj(f"e{i}"), None] for i in range(n)], "self.csvpath.stopped": False, "self.skip": False}
     out = []
     for p in it.run_all(fi, store=store):
